@@ -1,6 +1,9 @@
 PROP = dict(
-    modules=["Shangrla.Model.NonnegMean"],
-    theorems=[],
+    modules=["Shangrla.Props.C12Mart"],
+    theorems=["Shangrla.C12.factor_alpha_eq_betting", "Shangrla.C12.eta_lam_inverse", "Shangrla.C12.lam_eta_inverse",
+              "Shangrla.C12.alpha_terms_def", "Shangrla.C12.betting_terms_def", "Shangrla.C12.alpha_eq_betting_products",
+              "Shangrla.C12.alphaQ_lamToEta", "Shangrla.C12.hist_regular", "Shangrla.C12.hist_vanished",
+              "Shangrla.C12.hist_above_u", "Shangrla.C12.hist_below_zero", "Shangrla.C12.clamp_total_exceeds"],
     groups={"nm": (1500, 30000)},
     design_ref="DESIGN.md section 5, C12",
 )
